@@ -306,9 +306,27 @@ def r_tagapi(c):
             "replaced")
 
 
+def r_tagapi_splice(c):
+    """the axis-tagging API replaces exactly one axis for every accepted position"""
+    from pta.rules.c03 import _nonneg_proof, splice_sites
+    m = c.model
+    wa = m.func("pytato.array.Array.with_tagged_axis")
+    sites = [s_ for s_ in splice_sites(m, modules=["pytato.array"]) if s_[1] is wa]
+    if len(sites) != 1:
+        raise AnalysisError("anchor vanished: axes splice in Array.with_tagged_axis")
+    mi, fd, var, node = sites[0]
+    why = _nonneg_proof(m, fd, var, node)
+    c.check(why is not None, "R07-TAGAPI", "Array.with_tagged_axis",
+            "position-non-negative-at-splice", m.loc(mi, node),
+            f"the axes tuple is rebuilt as axes[:{var}] + (new,) + axes[{var}+1:] without "
+            f"{var} being validated/normalised: with_tagged_axis(-1, tag) returns a node "
+            "with more axes than dimensions, for which code generation fails (a tag "
+            "changes whether the program compiles)", ok_detail=why)
+
+
 SPEC = Spec(
     prop="C07",
-    rules=[r_depends, r_strategy, r_lowering_tags, r_tagapi],
+    rules=[r_depends, r_strategy, r_lowering_tags, r_tagapi, r_tagapi_splice],
     floors={"R07-DEPENDS": 15, "R07-STRATEGY": 9, "R07-LOWERING-TAGS": 40,
             "R07-TAGAPI": 40},
     explanation=(
